@@ -26,8 +26,8 @@ claimed = {
          ENGINE_NOTE + "; reference-count reclamation (drain lemma) not proved", "4/C17"),
  "C14": ("proof", "for all field values / all 64-byte inputs: Decode(Encode(x)) == x and Encode(Decode(b)) == b on every defined byte for all 20 command/result types (real Encode/Decode bodies composed by harness functions), and the LOCK/UNLOCK request and response frames match the README offsets byte for byte",
          "string fields (CALL method name, error type, leader host) are excluded from the value round trip (strings.Trim not modelled); server-side hand-inlined codecs, text parser chunk independence and text<->binary equivalence not yet under contract", "4/C14"),
- "C12": ("proof", "CompareAofId equals the specified log-position order (index with wrap-around, then offset, then command time) for all 2^256 input pairs",
-         "only the comparison kernel so far; proposal/commit handlers, vote choice and restart durability not yet under contract; transport outside", "4/C12"),
+ "C12": ("proof", "CompareAofId equals the specified log-position order for all 2^256 input pairs; acceptor handlers (remote and self proposal/commit): accepted and committed numbers never decrease, a proposal is accepted only above both and only while no commit is outstanding, a commit only for exactly the accepted number, once, and the reply is an ack iff the state changed; DoVote only ever selects a data-bearing member of non-zero weight (loop invariant); vote/proposal/commit succeed only with len(members)/2+1 answers",
+         "one handler call at a time under voter.glock (any delivery order is a sequence of such calls); maximality of the chosen log position in DoVote, durability across restart (ArbiterStore) and the announcement/offline clearing steps are not under contract; transport and kill -9 outside; slice capacities are assumed <= 2^62", "4/C12"),
 }
 na_reason = "not yet built in this session (engine exists; contracts for this property pending) - see DESIGN.md section 4 for the plan"
 props = [json.loads(l) for l in open("/verif/properties.jsonl")]
